@@ -6,7 +6,7 @@ import json, os, shutil
 ROOT=os.path.dirname(os.path.dirname(os.path.abspath(__file__)))
 RUNNER_SIGS=["sample-committed-before-series-record","delete-misses-ooo-head-samples","delete-hides-later-ooo-append",
  "wbl-sample-orphaned-by-checkpoint","head-delete-lost-after-compaction-and-restart","ooo-block-merged-raises-restart-bound",
- "stale-marker-conversion-reorders-commit","block-delete-lost-after-tombstone-cleanup-and-restart"]
+ "stale-marker-conversion-reorders-commit","block-delete-lost-after-tombstone-cleanup-and-restart","snapshot-restart-reissues-series-ref","duplicate-series-record-drops-ooo-mmapped-chunks"]
 USERS={"C02":"","C20":"hist-","C52":"","C03":""}
 # C03 replays wrap the history into a crash case (kill at the last hook hits: everything acknowledged)
 C03_SIGS=[x for x in RUNNER_SIGS if x!="stale-marker-conversion-reorders-commit"]
